@@ -186,6 +186,18 @@ theorem transfer_copy_never_touches_original (beh : Beh) (id est : Nat) (meth : 
   let r := run_transferInv beh id est meth true tr r0 (Or.inl rfl) ops st hops h
   ⟨r.2.1, r.1⟩
 
+/-! ### the tie to the functions the model transcribes -/
+
+/-- the functions the hand-written model transcribes have, in the current source, the control skeleton (tests, loop
+headers, kinds of statements and the names they bind) they had when the model was written and validated: no branch,
+loop, early exit or rebinding has been added that the model does not describe -/
+theorem modelled_functions_have_the_transcribed_shape :
+    MlVerif.Gen.C15.shapeTransferFit =
+      "if(self.copy_estimator){self.estimator_=;call assert_estimator_equal}else{self.estimator_=};if(self.trainable){insp=;pars=;if('y' in pars and 'sample_weight' in pars){call fit}else{if('y' in pars){call fit}else{if('sample_weight' in pars){call fit}else{call fit}}}};return" ∧
+    MlVerif.Gen.C15.shapeTransferInit =
+      "call __init__;call __init__;self.estimator=;self.copy_estimator=;self.trainable=;if(method is None){if(hasattr(estimator, 'transform')){method=}else{if(hasattr(estimator, 'predict_proba')){method=}else{if(hasattr(estimator, 'decision_function')){method=}else{if(hasattr(estimator, 'predict')){method=}else{raise}}}}};assert;self.method=" :=
+  ⟨rfl, rfl⟩
+
 /-! ### non-vacuity -/
 
 def recA : Rec := { cls := "R", caps := ["predict", "predict_proba"], fitY := true, fitW := false, a := 2, fits := [] }
